@@ -295,6 +295,17 @@ def h_resume(ctx, cfg):
         for o, k in p0.launches:
             ctx.prove(o not in ref_launch, "uninterrupted run launches every step once")
             ref_launch[o] = k
+        if mode == "retrospective":
+            # every step starts from the screen its immediate predecessor produced (whatever the batch size and plate index)
+            for (o_prev, k_prev), (o, k) in zip(p0.launches, p0.launches[1:]):
+                prev_out = o_prev + "/" + k_prev["name"] + "/advanced_screen.h5"
+                started_from = k["training_content"] if k["training"] is not None else k["screen_content"]
+                ctx.prove(fs0.exists(prev_out) and started_from == fs0.read(prev_out),
+                          "every step is started from the output screen of its immediate predecessor",
+                          key="retrospective: step not started from its predecessor's output",
+                          detail=lambda o=o, k=k, prev_out=prev_out: "step %s started from %s, predecessor wrote %s" % (o, k["training"] or k["screen"], prev_out))
+            ctx.prove(len(p0.launches) == P, "an uninterrupted simulation of P plates takes exactly P steps",
+                      key="retrospective: number of steps of the uninterrupted run")
         # ---- interrupted execution
         lo = 0
         if cfg.get("late"):
